@@ -100,6 +100,39 @@ def ifRangeOf : Cond.IfRange → Option (List Char) × Option Int
   | .etag e => (some e, none)
 
 
+/-- the model's `looksLikeEtag` (pattern match) is the code's test (`lstrip` + `startswith` of a tuple) -/
+theorem looksLikeEtag_eq (v : List Char) : Cond.looksLikeEtag v = quotedLike v := by
+  unfold Cond.looksLikeEtag quotedLike Pre.lstrip
+  generalize v.dropWhile Py.isSpace = e
+  unfold startswith
+  split
+  · simp [List.isPrefixOf]
+  · simp [List.isPrefixOf]
+  · simp [List.isPrefixOf]
+  · rename_i h1 h2 h3
+    match e, h1, h2, h3 with
+    | [], _, _, _ => simp [List.isPrefixOf]
+    | [a], h1, _, _ =>
+      have : ('"' == a) = false := by simpa using fun h => h1 [] (by rw [h])
+      simp [List.isPrefixOf, this]
+    | [a, b], h1, _, _ =>
+      have : ('"' == a) = false := by simpa using fun h => h1 [b] (by rw [h])
+      simp [List.isPrefixOf, this]
+    | a :: b :: c :: t, h1, h2, h3 =>
+      have e1 : ('"' == a) = false := by simpa using fun h => h1 (b :: c :: t) (by rw [h])
+      have e2 : ¬ ('W' = a ∧ '/' = b ∧ '"' = c) := fun ⟨x, y, z⟩ => h2 t (by rw [x, y, z])
+      have e3 : ¬ ('w' = a ∧ '/' = b ∧ '"' = c) := fun ⟨x, y, z⟩ => h3 t (by rw [x, y, z])
+      have b2 : ('W' == a && ('/' == b && '"' == c)) = false := by
+        cases hh : ('W' == a && ('/' == b && '"' == c))
+        · rfl
+        · simp only [Bool.and_eq_true, beq_iff_eq] at hh; exact absurd hh (fun ⟨x, y, z⟩ => e2 ⟨x, y, z⟩)
+      have b3 : ('w' == a && ('/' == b && '"' == c)) = false := by
+        cases hh : ('w' == a && ('/' == b && '"' == c))
+        · rfl
+        · simp only [Bool.and_eq_true, beq_iff_eq] at hh; exact absurd hh (fun ⟨x, y, z⟩ => e3 ⟨x, y, z⟩)
+      simp [List.isPrefixOf, e1, b2, b3]
+
+
 /-- what `Range.__init__` accepts -/
 def ValidPair (p : Int × Option Int) : Prop :=
   match p.2 with
